@@ -19,7 +19,66 @@ pub(crate) fn duration_to_instant(duration: Duration) -> Instant {
 }
 
 /// A helper to get the current time as a `Duration` since the epoch.
+#[cfg(not(excsn_fibre_verif))]
 #[inline]
 pub(crate) fn now_duration() -> Duration {
   instant_to_duration(Instant::now())
+}
+
+/// Verification hook H3 (only with `--cfg excsn_fibre_verif`): every time read of the cache
+/// goes through a virtual clock owned by the test harness instead of `Instant::now()`.
+#[cfg(excsn_fibre_verif)]
+#[inline]
+pub(crate) fn now_duration() -> Duration {
+  verif::now()
+}
+
+/// Virtual clock for verification harnesses. A thread reads the clock installed for it with
+/// [`verif::install`] (so that independent caches driven from different threads of one process
+/// do not share time); threads without an installed clock read the process-global clock.
+/// Both start at 1 s so that "0 = no deadline" encodings stay unambiguous.
+#[cfg(excsn_fibre_verif)]
+pub mod verif {
+  use std::cell::RefCell;
+  use std::sync::atomic::{AtomicU64, Ordering};
+  use std::sync::Arc;
+  use std::time::Duration;
+
+  const START_NANOS: u64 = 1_000_000_000;
+  static GLOBAL_NANOS: AtomicU64 = AtomicU64::new(START_NANOS);
+  thread_local! {
+    static LOCAL: RefCell<Option<Arc<AtomicU64>>> = const { RefCell::new(None) };
+  }
+
+  /// A fresh clock cell (nanoseconds since the cache epoch), starting at 1 s.
+  pub fn new_clock() -> Arc<AtomicU64> {
+    Arc::new(AtomicU64::new(START_NANOS))
+  }
+
+  /// Installs (or with `None` removes) the clock read by the calling thread.
+  pub fn install(clock: Option<Arc<AtomicU64>>) {
+    LOCAL.with(|l| *l.borrow_mut() = clock);
+  }
+
+  fn with_clock<R>(f: impl FnOnce(&AtomicU64) -> R) -> R {
+    LOCAL.with(|l| match l.borrow().as_ref() {
+      Some(c) => f(c),
+      None => f(&GLOBAL_NANOS),
+    })
+  }
+
+  /// Current virtual time of the calling thread's clock.
+  pub fn now() -> Duration {
+    Duration::from_nanos(with_clock(|c| c.load(Ordering::SeqCst)))
+  }
+
+  /// Sets the calling thread's clock.
+  pub fn set(d: Duration) {
+    with_clock(|c| c.store(d.as_nanos() as u64, Ordering::SeqCst));
+  }
+
+  /// Advances the calling thread's clock.
+  pub fn advance(d: Duration) {
+    with_clock(|c| c.fetch_add(d.as_nanos() as u64, Ordering::SeqCst));
+  }
 }
